@@ -66,8 +66,6 @@ func genCase(t *rapid.T) Case {
 		switch vkit.Uni(t, 12, "kind") {
 		case 0, 1, 2:
 			c.Ops = append(c.Ops, Op{K: "alloc", I: inst("i"), N: vkit.PickU(t, counts, "n")})
-		case 3:
-			c.Ops = append(c.Ops, Op{K: "rebase", I: inst("i")})
 		case 4, 5, 6:
 			// switch leader, then allocate on the new leader (the interesting sequence)
 			j := rapid.IntRange(-1, c.NInst).Draw(t, "leader") // -1 drop, NInst = foreign value
@@ -79,6 +77,14 @@ func genCase(t *rapid.T) Case {
 			c.Ops = append(c.Ops, Op{K: "crash", I: inst("i")})
 		case 8:
 			c.Ops = append(c.Ops, Op{K: "fail", I: inst("i"), Fail: vkit.PickU(t, []string{"before", "lostack"}, "fk")})
+		case 3:
+			if vkit.Uni(t, 2, "rebaseKind") == 0 {
+				c.Ops = append(c.Ops, Op{K: "rebase", I: inst("i")})
+			} else {
+				// Rebase (what the campaign goroutine calls) racing Alloc on the SAME instance
+				c.Ops = append(c.Ops, Op{K: "rrace", I: inst("i"), N: vkit.PickU(t, []int{1, 3, 1001}, "n"),
+					Sched: rapid.SliceOfN(rapid.IntRange(0, 3), 0, 12).Draw(t, "rsched")})
+			}
 		case 9:
 			c.Ops = append(c.Ops, Op{K: "conc", I: inst("i"), J: rapid.IntRange(2, 6).Draw(t, "g"), N: vkit.PickU(t, []int{1, 50, 400, 1100}, "n")})
 		default:
@@ -150,6 +156,7 @@ type world struct {
 	err            error // first violation seen inside hooks
 	failNext       [3]string
 	sched          *gate.Sched
+	afterGate      bool // park tasks also right after every RPC (races inside one allocator instance)
 	extAfterSwitch bool
 	switched       bool
 }
@@ -186,6 +193,13 @@ func (w *world) install(sl []*slot) {
 			}
 			return etcdfix.Proceed
 		}, func(ev *etcdfix.Event) {
+			// optional second scheduling point: the RPC has completed (the model below is
+			// updated first), the caller has not yet acted on the response
+			defer func() {
+				if sc := w.sched; sc != nil && w.afterGate {
+					sc.Enter(ev.Method+"-done", fmt.Sprint(si))
+				}
+			}()
 			if ev.Method != "Txn" || !ev.Applied {
 				return
 			}
@@ -413,6 +427,58 @@ func runCase(c Case) (vkit.Info, error) {
 			}
 			returned[op.I] = true
 			info.Class("conc")
+		case "rrace":
+			// Rebase and Alloc x N on one instance, released at RPC granularity, with a scheduling
+			// point also after each RPC. The allocator's own mutex may block one task behind the
+			// other (non-strict settle). Oracle: every id distinct and <= stored bound (record), the
+			// instance's ids strictly increase in the order the calls returned.
+			w.mu.Lock()
+			leaderNow := w.leader
+			w.mu.Unlock()
+			if leaderNow != in.member {
+				continue // both would just be refused
+			}
+			sc := gate.New()
+			w.sched, w.afterGate = sc, true
+			var vmu sync.Mutex
+			var verr error
+			sc.Go(1, func() { in.alloc.Rebase() })
+			sc.Go(2, func() {
+				for k := 0; k < op.N; k++ {
+					v, aerr := in.alloc.Alloc()
+					if aerr != nil {
+						return
+					}
+					vmu.Lock()
+					if v <= in.last && verr == nil {
+						verr = fmt.Errorf("%s returned %d after %d (must strictly increase; a window adopted out of order?)", who, v, in.last)
+					}
+					in.last = v
+					if e := w.record(in, v, who+"/rrace"); e != nil && verr == nil {
+						verr = e
+					}
+					vmu.Unlock()
+				}
+			})
+			ok := sc.Run(op.Sched, nil)
+			sc.Disable()
+			if !sc.Wait(60 * time.Second) {
+				ok = false
+			}
+			w.sched, w.afterGate = nil, false
+			if !ok {
+				info.Inconclusive = true
+				return info, nil
+			}
+			if verr != nil {
+				return info, fmt.Errorf("op %d rrace (schedule %v, trace %v): %v", step, op.Sched, sc.Trace, verr)
+			}
+			// the next id must still be above everything this instance returned
+			if _, aerr, verr2 := allocOne(in, who); aerr == nil && verr2 != nil {
+				return info, fmt.Errorf("op %d rrace, first Alloc afterwards: %v", step, verr2)
+			}
+			returned[op.I] = true
+			info.Class("rebase-races-alloc")
 		case "race":
 			// two allocating tasks (on instances I and J, or on I and its newest zombie when I==J)
 			a := in
